@@ -425,6 +425,34 @@ def check_names_and_paths(ctx, case, mode, is_async, base):
                               f"select_autoescape by name: template {name!r} source {a!r} vs precompiled {b!r}",
                               {"case": case, "mode": mode, "async": is_async})
                 break
+        # (c) names that are DISTINCT strings but look alike (canonically equivalent Unicode forms,
+        # case variants, compatibility characters, surrounding blanks, '.' vs '_'): every one is a
+        # template of its own on the source side, so it must be one on the precompiled side
+        groups = [["caf\u00e9.html", "cafe\u0301.html"], ["Page.html", "page.html", "PAGE.html"],
+                  ["\ufb01le.txt", "file.txt"], ["a.b", "a_b", "a b", "a.b "], ["\u212b", "\u00c5", "A\u030a"],
+                  ["x/y", "x//y", "x/./y"], ["\u0131.t", "i.t", "I.t", "\u0130.t"]]
+        lk = {}
+        for gi, g in enumerate(groups):
+            for ni, nm in enumerate(g):
+                other = g[(ni + 1) % len(g)]
+                lk[nm] = f"<{gi}.{ni}>" + ("{% include " + repr(other) + " ignore missing %}") * (ni % 2)
+        lk["zz_all"] = "".join("{% include " + repr(nm) + " %}|" for nm in lk)
+        ls_env = jinja2.Environment(loader=jinja2.DictLoader(lk), enable_async=is_async)
+        t3 = base + ("_lk.zip" if zipmode else "_lk")
+        made.append(t3)
+        ls_env.compile_templates(t3, zip=zipmode, ignore_errors=False, log_function=lambda m: None)
+        importlib.invalidate_caches()
+        lm_env = jinja2.Environment(loader=jinja2.ModuleLoader(t3), enable_async=is_async)
+        for name in lk:
+            a = util.capture(lambda: ls_env.get_template(name).render())
+            b = util.capture(lambda: lm_env.get_template(name).render())
+            ctx.ev()
+            ctx.count("lookalike_name_compares")
+            if not ((a.ok and b.ok and a.value == b.value) or (not a.ok and not b.ok and type(a.exc) is type(b.exc))):
+                ctx.violation(f"precompiled:{mode}:look-alike-names",
+                              f"set with distinct look-alike names: template {name!r} ({ascii(name)}) source {a!r} vs "
+                              f"precompiled {b!r}", {"case": case, "mode": mode, "async": is_async})
+                break
         # several locations with overlapping names: directory names chosen so that the
         # priority order differs from the lexicographic order
         locs = []
@@ -459,6 +487,84 @@ def check_names_and_paths(ctx, case, mode, is_async, base):
                 shutil.rmtree(p, ignore_errors=True)
             elif os.path.exists(p):
                 os.remove(p)
+
+
+def check_rebuild(ctx, case, mode, is_async, base, salt=0):
+    """A compiled set is REBUILT IN PLACE: templates on disk (FileSystemLoader) are compiled into a
+    target, some sources are edited (their mtimes forced backwards, kept equal, or left to move on),
+    and the set is compiled again into the SAME target; a fresh ModuleLoader must then render every
+    template like the current sources do."""
+    import importlib
+
+    import jinja2
+
+    zipmode = {"dir": None, "deflated": "deflated", "stored": "stored"}[mode]
+    srcdir = base + "_src"
+    target = base + ("_out.zip" if zipmode else "_out")
+    srcs = dict(corpus.sources(case))
+    srcs["zz_rebuild.txt"] = "build-one {{ 1 + 1 }}"
+    paths = {}
+    try:
+        for name, text in srcs.items():
+            fp = os.path.join(srcdir, *name.split("/"))
+            os.makedirs(os.path.dirname(fp), exist_ok=True)
+            with open(fp, "w", encoding="utf-8", newline="") as f:
+                f.write(text)
+            paths[name] = fp
+        def mk(loader):
+            e = jinja2.Environment(loader=loader, extensions=corpus.EXTENSIONS, enable_async=is_async)
+            e.globals.update(case["globals"])
+            return e
+
+        def compare(step):
+            importlib.invalidate_caches()
+            s_env = mk(jinja2.FileSystemLoader(srcdir))
+            m_env = mk(jinja2.ModuleLoader(target))
+            for name in srcs:
+                a = util.capture(lambda: s_env.get_template(name).render(corpus.realize_data(case, s_env)))
+                b = util.capture(lambda: m_env.get_template(name).render(corpus.realize_data(case, m_env)))
+                ctx.ev()
+                ctx.count("rebuild_compares")
+                if not ((a.ok and b.ok and a.value == b.value) or (not a.ok and not b.ok and type(a.exc) is type(b.exc))):
+                    ctx.violation(f"precompiled:{mode}:rebuilt-in-place:{step}",
+                                  f"template {name!r} after {step}: current source {a!r} vs precompiled {b!r} | "
+                                  f"{sorted(srcs.items())}", {"rebuild": True, "salt": salt, "case": case, "mode": mode, "async": is_async})
+                    return False
+            return True
+
+        b_env = mk(jinja2.FileSystemLoader(srcdir))
+        b_env.compile_templates(target, zip=zipmode, ignore_errors=True, log_function=lambda m: None)
+        if not compare("first build"):
+            return
+        # edit: every second template gets visible text in front (children of an inheritance
+        # chain ignore it, which both sides must agree on); the probe changes its whole body
+        names = sorted(srcs)
+        edited = 0
+        for k, name in enumerate(names):
+            if name != "zz_rebuild.txt" and (k + salt) % 2:
+                continue
+            st = os.stat(paths[name])
+            srcs[name] = "build-two {{ 2 + 2 }}" if name == "zz_rebuild.txt" else "<r" + str(k) + ">" + srcs[name]
+            with open(paths[name], "w", encoding="utf-8", newline="") as f:
+                f.write(srcs[name])
+            how = (k + salt // 2) % 3
+            if how == 0:      # restored from a backup / checked out from version control: older than before
+                os.utime(paths[name], ns=(st.st_atime_ns, st.st_mtime_ns - 3_600_000_000_000))
+            elif how == 1:    # edited within the timestamp granularity
+                os.utime(paths[name], ns=(st.st_atime_ns, st.st_mtime_ns))
+            ctx.count("rebuild_edit_mtime_" + ("back", "equal", "natural")[how])
+            edited += 1
+        r_env = b_env if salt % 2 else mk(jinja2.FileSystemLoader(srcdir))
+        r_env.compile_templates(target, zip=zipmode, ignore_errors=True, log_function=lambda m: None)
+        ctx.count("rebuild_histories")
+        ctx.count("rebuild_mode_" + mode)
+        compare("rebuild into the same target")
+    finally:
+        shutil.rmtree(srcdir, ignore_errors=True)
+        if os.path.isdir(target):
+            shutil.rmtree(target, ignore_errors=True)
+        elif os.path.exists(target):
+            os.remove(target)
 
 
 def run(ctx):
@@ -497,6 +603,11 @@ def run(ctx):
                     ctx.inconc(f"stateful-history sub-check crashed: {type(e).__name__}: {e}")
                 ctx.count("stateful_sets_" + smode)
                 ctx.dist(["stateful", smode, spec["carriers"], j % 4])
+            if i % 6 == 2:
+                try:
+                    check_rebuild(ctx, case, modes[(i // 6) % 3], (i % 4 == 3), os.path.join(tmp, f"rb{i}"), salt=i // 6)
+                except Exception as e:  # harness problems must not pass silently
+                    ctx.inconc(f"rebuild sub-check crashed: {type(e).__name__}: {e}")
             if i < 2:
                 ctx.sample({"sources": corpus.sources(case), "mode": mode})
             i += 1
@@ -507,6 +618,9 @@ def run(ctx):
 def replay(ctx, case):
     tmp = tempfile.mkdtemp(prefix="vt_c31_")
     try:
+        if case.get("rebuild"):
+            check_rebuild(ctx, case["case"], case["mode"], case["async"], os.path.join(tmp, "rb"), salt=case.get("salt", 0))
+            return
         if "stateful" in case:
             check_stateful(ctx, case["stateful"], case["mode"], case["async"], os.path.join(tmp, "st"))
             return
